@@ -551,7 +551,9 @@ func TestVerif_C40_CrashQueries(t *testing.T) {
 			r.Set("crashqueries_points_in_one_block", lab)
 			r.Sample(map[string]interface{}{"unit": "crashqueries", "history": hist, "points": len(pts)})
 		}
-		r.Add("crash_points", int64(len(pts)))
+		if sub == 0 || replay {
+			r.Add("crash_points", int64(len(pts))) // once per history, not once per shard that shares it
+		}
 		for _, p := range pts {
 			work++
 			if !replay && work%nsub != sub%nsub {
